@@ -161,36 +161,44 @@ pub fn run_model(model: &mut Model, doc: &str, batches: &[Vec<String>], child: b
 /// microstep), reconstructed from the implementation's enter/exit stream; plus clean-step faults
 pub struct CfgHistory {
     pub boundaries: Vec<Vec<u32>>,
-    pub faults: Vec<String>,
+    /// transitions selected for the microstep that ended at each boundary (empty for start-up)
+    pub boundary_ts: Vec<Vec<u32>>,
+    /// (description, transitions taken in that microstep)
+    pub faults: Vec<(String, Vec<u32>)>,
     pub microsteps: usize,
     pub multi_transition_steps: usize,
 }
 
 pub fn cfg_history(raw: &[String]) -> CfgHistory {
     let mut cfg: Vec<u32> = vec![];
-    let mut h = CfgHistory { boundaries: vec![], faults: vec![], microsteps: 0, multi_transition_steps: 0 };
+    let mut h = CfgHistory { boundaries: vec![], boundary_ts: vec![], faults: vec![], microsteps: 0, multi_transition_steps: 0 };
+    let mut selected: Vec<u32> = vec![];
     for l in raw {
         if let Some(n) = l.strip_prefix("enter ") {
             let id: u32 = n.parse().unwrap_or(0);
             if cfg.contains(&id) {
-                h.faults.push(format!("state {} entered while active", id));
+                h.faults.push((format!("state {} entered while active", id), selected.clone()));
             } else {
                 cfg.push(id);
             }
         } else if let Some(n) = l.strip_prefix("exit ") {
             let id: u32 = n.parse().unwrap_or(0);
             if !cfg.contains(&id) {
-                h.faults.push(format!("state {} exited while inactive", id));
+                h.faults.push((format!("state {} exited while inactive", id), selected.clone()));
             }
             cfg.retain(|x| *x != id);
         } else if l == "m< enterStates" {
             h.boundaries.push(cfg.clone());
+            h.boundary_ts.push(selected.clone());
+            selected.clear();
         } else if l == "m> microstep" {
             h.microsteps += 1;
         } else if let Some(v) = l.strip_prefix("res enabledTransitions=") {
             if v.contains(',') {
                 h.multi_transition_steps += 1;
             }
+            let inner = v.trim().trim_start_matches('[').trim_end_matches(']');
+            selected = inner.split(',').filter_map(|x| x.trim().parse().ok()).collect();
         }
     }
     h
@@ -366,6 +374,18 @@ pub fn gen_case(prop: &str, seed: u64, index: u64) -> (Case, usize) {
         let child = p.chance(1, 3);
         return (Case { xml, events, single, child, origin: format!("gen-finals prop={} seed={} index={}", prop, seed, index) }, gen_doc::count_states(&d));
     }
+    // structural corner cases: half of the C01 / C02 / C06 cases
+    let use_structural = match prop {
+        "C01" | "C02" | "C06" => index % 2 == 1,
+        "C03" | "C07" => index % 6 == 1,
+        _ => false,
+    };
+    if use_structural {
+        let (d, events) = gen_doc::gen_structural(&mut p);
+        let xml = gen_doc::render(&d);
+        let single = p.chance(1, 2);
+        return (Case { xml, events, single, child: false, origin: format!("gen-structural prop={} seed={} index={}", prop, seed, index) }, gen_doc::count_states(&d));
+    }
     let d = gen_doc::gen_doc(&mut p, &k);
     let xml = gen_doc::render(&d);
     let events = gen_doc::gen_events(&mut p, 10);
@@ -381,10 +401,26 @@ pub fn oracle_c01(c: &Case, imp: &ImplRun, model: &mut Model, rep: &mut Report) 
     rep.add("microsteps", h.microsteps as u64);
     rep.add("microsteps_multi_transition", h.multi_transition_steps as u64);
     rep.add("configurations_checked", h.boundaries.len() as u64);
-    for f in &h.faults {
+    let tb = parse_tables(&imp.doc);
+    // known pattern (W3C algorithm followed literally): a transition whose source lies inside the
+    // parent of a history state it targets re-enters the ancestors between the restored states and
+    // that parent although the transition domain did not exit them
+    let history_from_inside = |ts: &Vec<u32>| -> bool {
+        ts.iter().filter_map(|t| tb.trans.get(t)).any(|t| {
+            t.targets.iter().any(|x| {
+                tb.states.get(x).map(|s| s.hist != 0 && (t.source == s.parent || tb.is_desc(t.source, s.parent))).unwrap_or(false)
+            })
+        })
+    };
+    for (f, ts) in &h.faults {
+        let sig = if f.contains("entered while active") && history_from_inside(ts) {
+            "C01:unclean-step:history-targeted-from-inside-its-parent".to_string()
+        } else {
+            format!("C01:unclean-step:{}", f)
+        };
         rep.oracle_fail(
-            &format!("C01:unclean-step:{}", f),
-            json!({"origin": c.origin, "xml": c.xml, "events": c.events, "single": c.single, "child": c.child, "fault": f}),
+            &sig,
+            json!({"origin": c.origin, "xml": c.xml, "events": c.events, "single": c.single, "child": c.child, "fault": f, "transitions": ts}),
         );
     }
     if h.boundaries.is_empty() {
@@ -407,8 +443,13 @@ pub fn oracle_c01(c: &Case, imp: &ImplRun, model: &mut Model, rep: &mut Report) 
             rep.nontrivial.insert(key);
         }
         if ch != '1' {
+            let sig = if history_from_inside(&h.boundary_ts[i]) {
+                "C01:illegal-configuration:history-targeted-from-inside-its-parent"
+            } else {
+                "C01:illegal-configuration"
+            };
             rep.oracle_fail(
-                &format!("C01:illegal-configuration"),
+                sig,
                 json!({"origin": c.origin, "xml": c.xml, "events": c.events, "single": c.single, "child": c.child, "boundary": i, "configuration": h.boundaries[i]}),
             );
         }
@@ -528,6 +569,7 @@ pub struct TState {
 
 #[derive(Default, Clone)]
 pub struct TTrans {
+    pub source: u32,
     pub targets: Vec<u32>,
     pub content: u32,
 }
@@ -573,7 +615,7 @@ pub fn parse_tables(doc: &str) -> Tables {
             }
             "T" => {
                 let id: u32 = f[1].parse().unwrap_or(0);
-                t.trans.insert(id, TTrans { targets: nat_list(f[7]), content: f[9].parse().unwrap_or(0) });
+                t.trans.insert(id, TTrans { source: f[6].parse().unwrap_or(0), targets: nat_list(f[7]), content: f[9].parse().unwrap_or(0) });
             }
             _ => {}
         }
@@ -835,6 +877,15 @@ pub fn corpus(prop: &str) -> Vec<Case> {
         child: true,
         origin: format!("corpus {} parallel-history-finals", prop),
     });
+    // finding C01-history-from-inside: a history state targeted from inside its parent
+    v.push(Case {
+        xml: base("<state id=\"A\"><history id=\"H\" type=\"deep\"><transition target=\"C\"/></history>\
+            <state id=\"B\"><onentry><log label=\"l\" expr=\"1\"/></onentry><state id=\"C\"><transition event=\"b\" target=\"H\"/></state></state></state>"),
+        events: ["b", "a", "b"].iter().map(|s| s.to_string()).collect(),
+        single: true,
+        child: false,
+        origin: format!("corpus {} history-targeted-from-inside-its-parent", prop),
+    });
     // eventless chain, internal events before the next external one
     v.push(Case {
         xml: base("<state id=\"s1\"><onentry><raise event=\"r0\"/><raise event=\"r1\"/></onentry><transition cond=\"v0 &lt; 2\"><assign location=\"v0\" expr=\"v0 + 1\"/></transition><transition event=\"r0\" target=\"s2\"/><transition event=\"a\" target=\"s3\"/></state>\
@@ -921,10 +972,7 @@ pub fn run(args: &Args, model: &mut Model, prop: &str) -> Report {
                 "C03" => oracle_c03(c, imp, &mut rep),
                 "C06" => oracle_c06(c, imp, &mut rep),
                 "C07" => oracle_c07(c, imp, &mut rep),
-                "C02" => {
-                    oracle_c01(c, imp, model, &mut rep);
-                    oracle_c02(c, imp, &out.idle_before, &mut rep)
-                }
+                "C02" => oracle_c02(c, imp, &out.idle_before, &mut rep),
                 _ => {}
             }
             if rep.samples.len() < 3 {
